@@ -20,6 +20,16 @@ import (
 
 func genC14Doc(t *rapid.T, cfg gen.Cfg) bson.D {
 	doc := cfg.Doc(3, 4).Draw(t, "doc")
+	// field names that are textual prefixes of each other ("a" / "ab",
+	// "a.b" / "a.bc") without being parent and child
+	if rapid.IntRange(0, 2).Draw(t, "twins") == 0 {
+		doc = append(doc, bson.E{Key: "ab", Value: cfg.Value(1, false).Draw(t, "abv")})
+		for i := range doc {
+			if sub, ok := doc[i].Value.(bson.D); ok && doc[i].Key == "a" {
+				doc[i].Value = append(append(bson.D{}, sub...), bson.E{Key: "bc", Value: cfg.Scalar().Draw(t, "bcv")})
+			}
+		}
+	}
 	id := rapid.SampledFrom([]interface{}{int32(1), "k", gen.OID1, bson.D{{Key: "x", Value: int32(1)}, {Key: "y", Value: bson.A{int32(1)}}}}).Draw(t, "id")
 	return append(bson.D{{Key: "_id", Value: id}}, doc...)
 }
